@@ -192,7 +192,7 @@ class SolverState(object):
             ok = all(not (seg[i + 1] > seg[i]) for i in range(len(seg) - 1))
             self.expect(ok, 'C04.monotone', lambda: dict(where=where, history=seg, solver=self.kind))
             last = float(eh[-1]); be = float(s.bestEnergy)
-            self.expect(last == be or (last != last and be != be), 'C04.monotone',
+            self.expect(last == be or (last != last and be != be) or abs(last - be) <= 4e-323, 'C04.monotone',
                         lambda: dict(where=where, last=last, bestEnergy=be, solver=self.kind, note='last entry != bestEnergy'))
 
     def check_c02(self, where):
@@ -260,7 +260,7 @@ class SolverState(object):
                 if self.moved_by_ranges or not math.isfinite(float(s.bestEnergy)):
                     self.ctx.exclude('stepmon-last-after-ranges-moved-members-or-no-finite-energy')
                 else:
-                  self.expect(lastx == lab.fvec(s.bestSolution) and (lasty == float(s.bestEnergy)), 'C04.stepmon',
+                  self.expect(lastx == lab.fvec(s.bestSolution) and (lasty == float(s.bestEnergy) or abs(lasty - float(s.bestEnergy)) <= 4e-323), 'C04.stepmon',
                             lambda: dict(where=where, last=[lastx, lasty], best=[lab.fvec(s.bestSolution), float(s.bestEnergy)],
                                          solver=self.kind, note='last record is not the reported result'))
         # C05.message: the message names a condition that is true of the final state
